@@ -7,7 +7,7 @@ PROP_FILE = 'Props/C10.v'
 EVAL_FILES = ['Oracle/C10Oracle.v']
 CRATES = ['c09']
 MODES = ['debug']
-IMPORTS = 'Require Import V.Base.MachineInt V.Model.Conductor V.Oracle.C09Oracle V.Oracle.C10Oracle.'
+IMPORTS = 'Require Import V.Base.MachineInt V.Model.Conductor V.Model.ConductorReent V.Oracle.C09Oracle V.Oracle.C10Oracle.'
 PER_CASE_TIMEOUT = 8.0
 CHUNK = 40
 RULE = ('fault histories of up to 70 operations on a full in-process client (harness/c09: real conductor, ring, broadcast transmitter / receiver / '
@@ -20,7 +20,8 @@ RULE = ('fault histories of up to 70 operations on a full in-process client (har
 ASSUMPTIONS = [
     'driver events are well formed (ASCII strings, counter ids inside the counters buffer, existing log file, exclusive-publication answers '
     'with registration id = correlation id, known message type ids - C14); an ErrorResponse with error code 4 (channel endpoint error) carries a channel status indicator id in its correlation-id field (generated: ids of live resources, other ids, ids that only agree as i32)',
-    'the command ring either has room or (SetRingFull) refuses every command - its capacity arithmetic is C06\'s; strings fit the 512-byte scratch buffer (C13); callbacks do not call back into the client',
+    'the command ring either has room or (SetRingFull) refuses every command - its capacity arithmetic is C06\'s; a command that does not fit the 512-byte scratch buffer is refused with IllegalArgument (boundary cases generated); '
+    'callbacks that call back into the client are generated (op cs): they dead-lock - finding reentrant-call-deadlock, theorems C10_reentrant_call_deadlocks / C10_total_unless_reentrant',
     'the clock stays below 2^62 and above the linger time-out, so that now_ms - linger does not underflow (C11/C12)',
     'one thread drives the client: real scheduling of the agent thread against API threads and lock-order questions are outside the model',
 ]
@@ -33,6 +34,9 @@ def generate(rng, tier):
     n = 500 if tier != 'thorough' else 20000
     for _ in range(n):
         cases.append(cc.gen_history(rng, tier, 'faults' if rng.random() < 0.8 else 'protocol'))
+    # callbacks that call back into the client (finding reentrant-call-deadlock): scripted, then random insertions
+    cases += cc.scripted_reent()
+    cases += cc.reent_histories(rng, 16 if tier != 'thorough' else 300)
     return cases
 
 
@@ -42,8 +46,24 @@ shrink = cc.shrink
 normalize = cc.normalize
 
 
+def known_class(case, mode, obs):
+    return 'reentrant-call-deadlock' if cc.reentrant_deadlock(case, obs) else None
+
+
 def extra_checks(run):
-    return [cc.hook_note()]
+    import os
+    import re
+    from vlib import core
+    # K1-reentrant: ensure_not_reentrant as the model describes it (reports through the error handler, does not refuse), and the
+    # conductor behind a std Mutex (the second lock of a callback's re-entrant call is what never returns)
+    src = open(os.path.join(core.REPO, 'src', 'client_conductor.rs')).read().split('#[cfg(test)]')[0]
+    norm = re.sub(r'\s+', ' ', src)
+    want = 'pub fn ensure_not_reentrant(&self) { if self.is_in_callback { let err = AeronError::ReentrantException; self.error_handler.call(err); } }'
+    aeron = re.sub(r'\s+', ' ', open(os.path.join(core.REPO, 'src', 'aeron.rs')).read())
+    ok = want in norm and 'conductor: Arc<Mutex<ClientConductor>>' in aeron and 'use std::sync::{Arc, Mutex}' in aeron.replace('Mutex, Arc', 'Arc, Mutex')
+    return [cc.hook_note(),
+            (ok, 'K1-reentrant', 'ensure_not_reentrant only reports to the error handler; Aeron holds the conductor as Arc<std::sync::Mutex<ClientConductor>>'
+             if ok else 'ensure_not_reentrant or the conductor lock changed: Model/ConductorReent.v no longer describes the source')]
 
 
 def oracle_expr(case, mode, obs):
